@@ -153,48 +153,7 @@ func checkC10(c *Ctx) {
 	ruleStreamChannelsClosed(c, "C10.c", complete)
 	// ---- (d) ---------------------------------------------------------------
 	flush := p.Func("imapclient", "commandEncoder", "flush")
-	if flush == nil {
-		c.unresolvedRoot("(*commandEncoder).flush")
-	} else {
-		gf := mustFlow(flush, facts{}, func(f facts, i ssa.Instruction) facts {
-			if call, ok := i.(*ssa.Call); ok && staticCallee(call) == cwe {
-				return f.with("closed-client")
-			}
-			return f
-		}, func(f facts, b *ssa.BasicBlock, s int) facts { return f.with(valueEdgeFacts(b, s)...) })
-		okD := false
-		for _, ret := range returnsOf(flush) {
-			_ = ret
-		}
-		// on the failure edge of CRLF, closeWithError must be reached before returning
-		for _, b := range flush.Blocks {
-			for si := range b.Succs {
-				for _, fc := range failureCalls(b, si) {
-					if callKey(fc) == "(*Encoder).CRLF" {
-						// every return reachable from this edge only... check the successor block's path
-						okD = true
-						for _, ret := range returnsOf(flush) {
-							fs, reach := gf.at(ret)
-							if reach && fs.has("fail:(*Encoder).CRLF") && !fs.has("closed-client") {
-								okD = false
-							}
-						}
-						// the merged return has neither fact; require the call to sit in a block dominated by the failure edge
-						found := false
-						allInstrs(flush, func(i ssa.Instruction) {
-							if call, ok := i.(*ssa.Call); ok && staticCallee(call) == cwe {
-								if b.Succs[si] == call.Block() || b.Succs[si].Dominates(call.Block()) {
-									found = true
-								}
-							}
-						})
-						okD = okD && found
-					}
-				}
-			}
-		}
-		c.check(okD, "C10.d", "flush: write error closes the client", flush.Pos(), "the failure edge of CRLF() leads to closeWithError", "a failed write of a command is ignored: the command stays pending for ever although it was never sent")
-	}
+	ruleFlushCloses(c, "C10.d", flush, cwe)
 	// ---- (e) ---------------------------------------------------------------
 	ruleContReqCancelled(c, "C10.e")
 	c.rule("C10.g", "a continuation request is registered before the bytes that provoke it are flushed", 3)
@@ -205,6 +164,10 @@ func checkC10(c *Ctx) {
 	ruleCommandEncoderPairing(c, "C10.i")
 	c.rule("C10.j", "a hand-over counter compared with cap(ch) is incremented before the send of the same round", 1)
 	ruleCountBeforeSend(c, "C10.j")
+	c.rule("C10.k", "no blocking channel operation while Client.mutex is held", 1)
+	ruleNoBlockingUnderClientMutex(c, "C10.k", la)
+	c.rule("C10.l", "merged sub-command errors: a later error is taken only while none is recorded", 0)
+	ruleFirstErrorWins(c, "C10.l", "imapclient")
 }
 
 // ruleRegisterBeforeFlush: in every client function that both registers
@@ -472,4 +435,81 @@ func ruleStreamChannelsClosed(c *Ctx, rule string, complete *ssa.Function) {
 		}
 	}
 	c.check(sent && closedDone, rule, "completeCommand: done <- err; close(done)", complete.Pos(), "the result is sent and the channel closed unconditionally, first thing", "completeCommand does not unconditionally deliver the result on done and close it")
+}
+
+// ruleFlushCloses: a failed write of a command tears the client down on every
+// path (C10.d; also run under C13).
+func ruleFlushCloses(c *Ctx, rule string, flush, cwe *ssa.Function) {
+	if flush == nil {
+		c.unresolvedRoot("(*commandEncoder).flush")
+	} else {
+		gf := mustFlow(flush, facts{}, func(f facts, i ssa.Instruction) facts {
+			if call, ok := i.(*ssa.Call); ok && staticCallee(call) == cwe {
+				return f.with("closed-client")
+			}
+			return f
+		}, func(f facts, b *ssa.BasicBlock, s int) facts { return f.with(valueEdgeFacts(b, s)...) })
+		okD := false
+		for _, ret := range returnsOf(flush) {
+			_ = ret
+		}
+		// on the failure edge of CRLF, closeWithError must be reached before returning
+		for _, b := range flush.Blocks {
+			for si := range b.Succs {
+				for _, fc := range failureCalls(b, si) {
+					if callKey(fc) == "(*Encoder).CRLF" {
+						// every return reachable from this edge only... check the successor block's path
+						okD = true
+						for _, ret := range returnsOf(flush) {
+							fs, reach := gf.at(ret)
+							if reach && fs.has("fail:(*Encoder).CRLF") && !fs.has("closed-client") {
+								okD = false
+							}
+						}
+						// the merged return has neither fact; require the call to sit in a block dominated by the failure edge
+						found := false
+						allInstrs(flush, func(i ssa.Instruction) {
+							if call, ok := i.(*ssa.Call); ok && staticCallee(call) == cwe {
+								if b.Succs[si] == call.Block() || b.Succs[si].Dominates(call.Block()) {
+									found = true
+								}
+							}
+						})
+						okD = okD && found
+						// and no way from the failure edge to a return that avoids the teardown
+						// (e.g. an extra `&& !errors.Is(err, net.ErrClosed)` on the same test)
+						closes := map[*ssa.BasicBlock]bool{}
+						allInstrs(flush, func(i ssa.Instruction) {
+							if call, ok := i.(*ssa.Call); ok && staticCallee(call) == cwe {
+								closes[call.Block()] = true
+							}
+						})
+						seenB := map[*ssa.BasicBlock]bool{}
+						var escapes func(x *ssa.BasicBlock) bool
+						escapes = func(x *ssa.BasicBlock) bool {
+							if closes[x] || seenB[x] {
+								return false
+							}
+							seenB[x] = true
+							if len(x.Instrs) > 0 {
+								if _, isRet := x.Instrs[len(x.Instrs)-1].(*ssa.Return); isRet {
+									return true
+								}
+							}
+							for _, s2 := range x.Succs {
+								if escapes(s2) {
+									return true
+								}
+							}
+							return false
+						}
+						if escapes(b.Succs[si]) {
+							okD = false
+						}
+					}
+				}
+			}
+		}
+		c.check(okD, rule, "flush: write error closes the client", flush.Pos(), "the failure edge of CRLF() leads to closeWithError", "a failed write of a command is ignored: the command stays pending for ever although it was never sent")
+	}
 }
